@@ -24,6 +24,8 @@ var c20Fixed = []string{
 	`(def h (hash zeta: 1 alpha: 2 mid: "x")) (msgpack h)`,
 	`(unjson (raw "{\"id\":1,\"ID\":2,\"name\":3,\"Name\":4,\"zip\":5,\"a\":{\"y\":1,\"x\":2,\"w\":3}}"))`,
 	`(keys (unjson (raw "{\"q\":1,\"b\":2,\"m\":3,\"a\":4,\"z\":5}")))`,
+	`(unjson (raw "{\"ab\":1,\"AB\":2,\"Ab\":3,\"aB\":4,\"cd\":5,\"CD\":6,\"Cd\":7,\"cD\":8,\"e\":9,\"E\":10,\"f\":11,\"F\":12}"))`,
+	`(def m (unjson (raw "{\"k\":{\"xy\":1,\"XY\":2,\"Xy\":3,\"xY\":4,\"zz\":5,\"ZZ\":6,\"Zz\":7}}"))) (list (str m) (raw2str (json m)))`,
 	`(unmsgpack (msgpack (hash k1: 1 k2: [1 2] k3: (hash a: 1 b: 2))))`,
 	`(defmap cowz) (def c (cowz name: "b" legs: 4 tags: ["x" "y"])) (list (str c) (raw2str (json c)) (keys c))`,
 	`(def o (c10outer i: 1 s: "x" p: (c10inner name: "q" n: 4) sh: (c10inner n: 2) shs: [(c10inner n: 3)] m: (hash kb: "b" ka: "a" kc: "c") mf: (hash fb: 1.5 fa: 2))) (_method o Echo: o)`,
